@@ -85,13 +85,14 @@ def strata(tier):
                                  {"path": PC.mkpath([{"p": "prim", "v": "recs"}, {"p": "list"}, {"p": "prim", "v": "id"}]),
                                   "cond": PC.L("value", "less_than", 65), "cast": None}], "doc": PC.BIG_DOC}
     conds = [PC.L("value", "is_instance", {"$type": "int"}), PC.L("value", "truthy"), PC.L("value", "greater_than", 2),
-             PC.L("value", "equal_to", True), PC.L("value", "has_factor", 2), {"c": "null"}]
+             PC.L("value", "equal_to", True), PC.L("value", "has_factor", 2), {"c": "null"},
+             PC.L("value", "equal_to_approx", 1.5, 0.5), PC.L("value", "has_factor", 2.5), PC.L("value", "factor_of", 2.5)]
     for cast in ([["str", "bool"]], [["str", "int"]]):
         for cls, parts in CAST_PATHS:
             for ci, cond in enumerate(conds):
                 yield {"rules": [{"path": PC.mkpath(parts), "cond": cond, "cast": cast}], "doc": HOSTILE,
                        "cast_class": cls}
-                if ci < 2:
+                if ci < 2 and parts:
                     yield {"rules": [{"path": PC.mkpath(parts), "cond": cond, "cast": cast},
                                      {"path": PC.mkpath(parts[:-1]), "cond": {"c": "null"}, "cast": [["str", "bool"]]}],
                            "doc": HOSTILE, "cast_class": cls}
